@@ -28,7 +28,7 @@ ASSUMPTIONS = [
 
 TAGS = ["i", "b", "p"]
 TAGS2 = ["I", "em", "s"]
-TAGS3 = ['i\nclass="c"', 'p title="1 > 0"']  # a start tag written across a line break; an attribute value containing '>'   # upper-case style tag, the third style tag, a tag the balancing does not know
+TAGS3 = ['i\nclass="c"', 'p title="1 > 0"', 'b title="\u00a7\u00a7 1\u20134 \u00b6 2"']  # a start tag written across a line break; an attribute value containing '>'   # upper-case style tag, the third style tag, a tag the balancing does not know
 CFG = {"quick": [("wxyz", 2)], "thorough": [("wxyz", 3), ("wxyzu", 2)]}
 
 
